@@ -609,6 +609,11 @@ def polynomial_laws(prog):
             known = False
             for c, val, _, _ in facts:
                 c = strip(c)
+                # a switch on the length itself (`match self.len { 0 => .., _ => .. }`, a tuple pattern `(0, _)`)
+                if show(c) == side and isinstance(val, tuple) and val[0] == "not" and "0" in val[1]:
+                    known = True
+                if show(c) == side and isinstance(val, str) and val.isdigit() and int(val) > 0:
+                    known = True
                 if c[0] == "bin" and c[1] in ("Eq", "Ne", "Gt", "Lt", "Ge", "Le"):
                     a_, b_ = show(strip(c[2])), show(strip(c[3]))
                     true_ = (val == "1") or (isinstance(val, tuple) and val[0] == "not" and "0" in val[1])
